@@ -253,3 +253,32 @@ func straceNames(dir string, args []string) ([]string, error) {
 	}
 	return names, nil
 }
+
+// runGxzPlain runs gxz directly (no stepper) in dir: exit status, stderr and stdout only.
+func runGxzPlain(c *ev.Ctx, dir string, args []string) gxzResult {
+	var res gxzResult
+	cmd := exec.Command(gxzBinary(), args...)
+	cmd.Dir = dir
+	outp := filepath.Join(dir, "..", filepath.Base(dir)+".stdout")
+	of, err := os.Create(outp)
+	if err != nil {
+		res.RunErr = err.Error()
+		return res
+	}
+	cmd.Stdout = of
+	var eb bytes.Buffer
+	cmd.Stderr = &eb
+	cmd.Env = append(os.Environ(), "GOMAXPROCS=2")
+	res.Exit = -1
+	err = cmd.Run()
+	of.Close()
+	res.Stdout, _ = os.ReadFile(outp)
+	os.Remove(outp)
+	res.Stderr = eb.String()
+	if cmd.ProcessState != nil && cmd.ProcessState.Exited() {
+		res.Exit = cmd.ProcessState.ExitCode()
+	} else if err != nil {
+		res.RunErr = err.Error()
+	}
+	return res
+}
